@@ -236,6 +236,9 @@ func (c *PolyCtx) accessPath(addr ssa.Value) (string, bool) {
 			return fmt.Sprintf("local%d:%s", c.id(x), x.Comment) + joinFields(fields), true
 		case *ssa.IndexAddr:
 			return "", false
+		case *ssa.Call, *ssa.Phi, *ssa.Extract, *ssa.MakeInterface, *ssa.TypeAssert:
+			// a pointer obtained from a call etc.: an opaque but stable root
+			return fmt.Sprintf("v%d:%s", c.id(v), v.Name()) + joinFields(fields), true
 		default:
 			return "", false
 		}
